@@ -330,6 +330,253 @@ def _norm_obs(o):
 
 
 # ======================================================================
+# 1b. client side: the VALUE a reply carries (specs/SftpProto/SftpValues.tla)
+# ======================================================================
+
+HANDLES = {'h0': b'', 'h1': b'\x07', 'h256': bytes(range(256))}
+DATA_VALUES = {'d0': b'', 'd1': b'Z', 'dN': b'0123456789' * 3}
+
+
+def _attrs_value(v, cls):
+    """(ATTRS body, expected {field: value})"""
+    typ = b'' if v == 3 else b'\x01'
+    if cls == 'a0':
+        return u32(0) + (b'' if v == 3 else b'\x05'), {'size': None,
+                                                      'permissions': None,
+                                                      'mtime': None}
+    if cls == 'a1':
+        return u32(1) + typ + u64(77), {'size': 77, 'permissions': None,
+                                        'mtime': None}
+    if v == 3:
+        body = u32(0xd) + u64(123456) + u32(0o100640) + u32(1000) + u32(2000)
+        return body, {'size': 123456, 'permissions': 0o100640, 'mtime': 2000}
+    body = u32(0x2d) + typ + u64(123456) + u32(0o640) + u64(1000) + u64(2000)
+    return body, {'size': 123456, 'permissions': 0o640, 'mtime': 2000}
+
+
+def _names_value(v, names, end=None):
+    body = u32(len(names))
+    for n in names:
+        body += sstr(n) + (sstr(b'long ' + n) if v == 3 else b'') + \
+            (u32(0) if v == 3 else u32(0) + b'\x05')
+    if end is not None:
+        body += bytes([1 if end else 0])
+    return body
+
+
+def value_case(kind, v, r, code):
+    """One row of the SftpValues table against the real client API.
+    Returns dict(outcome, closes, l1, trace)."""
+    w = sftp_io.world()
+    loop = w.loop
+    res = {'kind': kind, 'v': v, 'r': r, 'code': code, 'l1': [],
+           'outcome': None, 'closes': 0, 'trace': []}
+    sftp, script = w.session(sftp_version=v, version=v, hold=(),
+                             exts=[(b'statvfs@openssh.com', b'2')])
+    script.hold_all = True
+    handle = HANDLES.get(r, b'\x07') if kind in ('open', 'opendir') \
+        else b'\x07'
+    target = {'open': 3, 'opendir': 11, 'read': 5, 'read0': 5, 'readdir': 12,
+              'realpath': 16, 'readlink': 19, 'stat': 17, 'lstat': 7,
+              'statvfs': 200, 'remove': 13, 'mkdir': 14, 'setstat': 9}[kind]
+    state = {'answered': False, 'uses': [], 'eof_sent': False}
+    fobj = {}
+
+    async def call():
+        if kind in ('open', 'read', 'read0'):
+            f = await sftp.open(b'p', 'rb', block_size=0)
+            fobj['f'] = f
+            try:
+                if kind == 'read':
+                    return await f.read(30, 0)
+                if kind == 'read0':
+                    return await f.read(0, 0)
+                hv = f.handle
+                data = await f.read(4, 0)
+                return ('handle', hv, data)
+            finally:
+                await f.close()
+                await f.close()          # a second close() is a no-op
+        if kind in ('opendir', 'readdir'):
+            return [n.filename for n in await sftp.readdir(b'd')]
+        if kind == 'realpath':
+            return await sftp.realpath(b'p')
+        if kind == 'readlink':
+            return await sftp.readlink(b'p')
+        if kind == 'stat':
+            return await sftp.stat(b'p')
+        if kind == 'lstat':
+            return await sftp.lstat(b'p')
+        if kind == 'statvfs':
+            return await sftp.statvfs(b'p')
+        if kind == 'remove':
+            return await sftp.remove(b'p')
+        if kind == 'mkdir':
+            return await sftp.mkdir(b'newdir')
+        return await sftp.setstat(b'p', asyncssh.SFTPAttrs(size=1))
+
+    def body_handle(req):
+        try:
+            return Cur(req.data).str()
+        except (struct.error, IndexError):
+            return None
+
+    def serve(req):
+        """the scripted server's answer to one request"""
+        rid, t = req.id, req.kind
+        res['trace'].append(t)
+        if t == target and not state['answered']:
+            state['answered'] = True
+            if t in (5, 12):
+                state['uses'].append(body_handle(req))
+            if r == 'status':
+                script.status(rid, code, 'scripted status')
+            elif r in HANDLES:
+                script.send(HANDLE, u32(rid) + sstr(HANDLES[r]))
+            elif r in DATA_VALUES:
+                script.data(rid, DATA_VALUES[r])
+            elif r.startswith('n'):
+                names = {'n0': [], 'n1': [b'e1'], 'n2': [b'e1', b'e2']}[
+                    r.replace('end', '')]
+                if kind in ('realpath', 'readlink'):
+                    names = [b'/N/one']
+                script.send(NAME, u32(rid) + _names_value(
+                    v, names, True if r.endswith('end') else None))
+            elif r.startswith('a'):
+                script.send(ATTRS, u32(rid) + _attrs_value(v, r)[0])
+            elif r == 'e88':
+                script.send(EXTENDED_REPLY, u32(rid) + u64(4096) + u64(0) * 10)
+            elif r == 'ok':
+                script.status(rid, 0)
+            return
+        # ---- the requests around the one under test ----
+        if t in (3, 11):                    # OPEN / OPENDIR (not the target)
+            script.send(HANDLE, u32(rid) + sstr(handle))
+        elif t == 4:
+            if body_handle(req) == handle:
+                res['closes'] += 1
+            else:
+                state['uses'].append(body_handle(req))
+            script.status(rid, 0)
+        elif t == 5:
+            state['uses'].append(body_handle(req))
+            script.data(rid, b'abcd')
+        elif t == 12:
+            state['uses'].append(body_handle(req))
+            if kind == 'opendir' and not state['eof_sent'] and \
+                    not state.get('listed'):
+                state['listed'] = True
+                script.send(NAME, u32(rid) + _names_value(v, [b'e1']))
+            else:
+                state['eof_sent'] = True
+                script.status(rid, 1, 'eof')
+        else:
+            script.status(rid, 8, 'unsupported')
+
+    task = loop.create_task(call())
+    try:
+        for _ in range(40):
+            loop.run_until_idle()
+            if task.done() or not script.held:
+                break
+            for req in list(script.held):
+                script.held.remove(req)
+                serve(req)
+        if not task.done():
+            task.cancel()
+            loop.run_until_idle()
+            res['l1'].append(('ExactlyOneOutcome', 'the call neither '
+                              'returned nor raised'))
+            return res
+        exc = task.exception() if not task.cancelled() else None
+        if task.cancelled():
+            res['outcome'] = ('other', 'cancelled')
+        elif exc is not None:
+            if isinstance(exc, asyncssh.SFTPError):
+                res['outcome'] = ('exc', exc.code)
+                res['exc'] = repr(exc)
+            else:
+                res['outcome'] = ('other', type(exc).__name__)
+                res['exc'] = repr(exc)
+        else:
+            val = task.result()
+            res['outcome'] = _classify_value(kind, v, r, val)
+        # ---- monitors ----
+        legal_value = r != 'status'
+        if legal_value and res['outcome'] != ('value', r):
+            res['l1'].append(('ValueDelivered', f'{kind} was answered with a '
+                              f'well-formed {r} reply but the caller got '
+                              f'{res["outcome"]} {res.get("exc", "")}'))
+        if r == 'status' and code != 0:
+            eof_ok = code == 1 and kind in ('read', 'read0', 'readdir')
+            want = ('value', 'empty' if kind != 'readdir' else 'n0') \
+                if eof_ok else ('exc', code)
+            if res['outcome'] != want:
+                res['l1'].append(('StatusMapped', f'{kind} was answered with '
+                                  f'status {code} but the caller got '
+                                  f'{res["outcome"]} {res.get("exc", "")}'))
+        if r == 'status' and code == 0 and res['outcome'] != ('exc', 5):
+            res['l1'].append(('ValueDelivered', f'{kind} was answered with a '
+                              f'bare FX_OK but the caller got '
+                              f'{res["outcome"]}'))
+        if kind in ('open', 'opendir') and r in HANDLES:
+            wrong = [u for u in state['uses'] if u != handle]
+            if wrong:
+                res['l1'].append(('HandleEchoed', f'the server issued handle '
+                                  f'{handle[:8].hex()} ({len(handle)} bytes) '
+                                  f'but later requests name '
+                                  f'{[x.hex()[:16] if x is not None else x for x in wrong]}'))
+            if res['closes'] != 1:
+                res['l1'].append(('EmptyHandleNotClosed' if r == 'h0' and
+                                  res['closes'] == 0 and
+                                  res['outcome'] == ('value', r)
+                                  else 'CloseOnce',
+                                  f'the {len(handle)}-byte handle issued for '
+                                  f'{kind} was closed {res["closes"]} times'))
+    finally:
+        if not task.done():
+            task.cancel()
+        w.end_session(sftp)
+        if loop.exceptions:
+            sftp_io.drop_world()
+    return res
+
+
+def _classify_value(kind, v, r, val):
+    """('value', class) if val is exactly what reply class r carries"""
+    try:
+        if kind == 'open':
+            tag, hv, data = val
+            return ('value', r) if hv == HANDLES.get(r) and data == b'abcd' \
+                else ('wrong', repr(val)[:60])
+        if kind == 'opendir':
+            return ('value', r) if val == [b'e1'] else ('wrong', repr(val))
+        if kind in ('read', 'read0'):
+            if r == 'status':
+                return ('value', 'empty') if val == b'' else \
+                    ('wrong', repr(val))
+            return ('value', r) if val == DATA_VALUES[r] else \
+                ('wrong', repr(val)[:60])
+        if kind == 'readdir':
+            want = {'n0': [], 'n1': [b'e1'], 'n2': [b'e1', b'e2']}
+            if r == 'status':
+                return ('value', 'n0') if val == [] else ('wrong', repr(val))
+            return ('value', r) if val == want[r.replace('end', '')] else \
+                ('wrong', repr(val))
+        if kind in ('realpath', 'readlink'):
+            return ('value', r) if val == b'/N/one' else ('wrong', repr(val))
+        if kind in ('stat', 'lstat'):
+            exp = _attrs_value(v, r)[1]
+            ok = all(getattr(val, k) == x for k, x in exp.items())
+            return ('value', r) if ok else ('wrong', repr(val)[:80])
+        if kind == 'statvfs':
+            return ('value', r) if val.bsize == 4096 else ('wrong', repr(val))
+        return ('value', 'ok') if val is None else ('wrong', repr(val))
+    except Exception as e:              # pylint: disable=broad-except
+        return ('wrong', f'{type(e).__name__}: {e}')
+
+
+# ======================================================================
 # 2. server side
 # ======================================================================
 
